@@ -7,6 +7,9 @@ CONSTANTS
   NonRecCross = FALSE
   B2B = TRUE
   WithRoot = TRUE
+  InodeReuse = FALSE
+  StickyCreated = FALSE
+  ViewSkipInCreatedRemoved = FALSE
   RecModes = {TRUE, FALSE}
 INVARIANT Xlat_ReplicaMatches
 INVARIANT Xlat_RenameIsOneMovedEvent
